@@ -37,3 +37,55 @@ SPECS = [
 def run(ck, prog):
     e1.run(ck, prog, SPECS)
     ck.floor("E1-guard", 8)
+
+
+# ---------------------------------------------------------------- E3: metric axioms by abstract interpretation
+LEVEL = "proof"
+TECHNIQUE = "abstract interpretation over rustc MIR (swap-parity / diagonal-zero / sign domains) + guard/post-dominance rules"
+EXPLANATION = (
+    "Proof (abstract interpretation over MIR; all vector lengths, all finite components, both float widths) of three "
+    "metric axioms for the five distances: d(x,y) == d(y,x) bit for bit (parity S under exchange of the arguments), "
+    "d(x,x) == 0 (diagonal value Z; finite inputs so that x - x = 0), d >= 0 or NaN (sign NN; for Mahalanobis this is the "
+    "'sqrt' bound, positive-definiteness is not used) - 15 obligations, each the abstract value of the return place of "
+    "Distance::distance (Euclidian through squared_distance, analysed inter-procedurally). Plus E1: the length contracts "
+    "(mismatch -> panic on every path; Minkowski p = 0 refused, p >= 1 accepted), which are also what identifies len(x) "
+    "with len(y) in the proof. NOT decided: the triangle inequality, agreement with the closed forms, "
+    "Minkowski(1|2) = Manhattan/Euclid, Mahalanobis(I) = Euclid."
+)
+CLAIM = EXPLANATION
+NOTE = ("trusted base: rustc MIR; the transfer table of sa/absint.py (IEEE: a-b = -(b-a), |−t| = |t|, (−a)(−b) = ab, + and * commutative, "
+        "all exact; sums are taken in the same order because loop ranges are symmetric; external float functions are deterministic "
+        "functions of their arguments); flow-insensitive weak updates; unknown callee => T => obligation not discharged")
+
+DIST = [
+    ("Euclidian", r"<math::distance::euclidian::Euclidian as math::distance::Distance<std::vec::Vec<T>, T>>::distance"),
+    ("Manhattan", r"<math::distance::manhattan::Manhattan as math::distance::Distance<std::vec::Vec<T>, T>>::distance"),
+    ("Minkowski", r"<math::distance::minkowski::Minkowski as math::distance::Distance<std::vec::Vec<T>, T>>::distance"),
+    ("Hamming", r"<math::distance::hamming::Hamming as math::distance::Distance<std::vec::Vec<T>, F>>::distance"),
+    ("Mahalanobis", r"<math::distance::mahalanobis::Mahalanobis<T, M> as math::distance::Distance<std::vec::Vec<T>, T>>::distance"),
+]
+
+_run_e1 = run
+
+
+def run(ck, prog):
+    from sa import absint
+    _run_e1(ck, prog)
+    ck.trusted_base = [NOTE]
+    for nm, path in DIST:
+        b = prog.bodies.get(path)
+        if not b:
+            for ob in ("symmetric", "zero on identical arguments", "non-negative"):
+                ck.obligation("E3-metric", f"{nm}: {ob}", path, False, detail="anchor vanished")
+            continue
+        ai = absint.AbsInt(b, prog, {1: "S", 2: "XV", 3: "YV"})
+        v = ai.val.get(0)
+        site = f"{b.loc[0]}:{b.loc[1]}"
+        unk = f"; callees without transfer function: {ai.unknown[:3]}" if ai.unknown else ""
+        ck.obligation("E3-metric", f"{nm}: symmetric", b.path, v[0] == "S", site=site, detail=f"return value {v}{unk}",
+                      expected="parity S of the return place under exchange of x and y")
+        ck.obligation("E3-metric", f"{nm}: zero on identical arguments", b.path, v[1] == "Z", site=site, detail=f"return value {v}{unk}",
+                      expected="diagonal value Z of the return place")
+        ck.obligation("E3-metric", f"{nm}: non-negative", b.path, v[2] == "NN", site=site, detail=f"return value {v}{unk}",
+                      expected="sign NN (non-negative or NaN) of the return place")
+    ck.floor("E3-metric", 15)
